@@ -29,7 +29,9 @@ META = {
                    "frames; frame equality and class identity are obligations per path",
     "bounds": ["all rows of the table x all address kinds x all instance kinds (except Device 0xFE)",
                "address/group/instance numbers, 4-bit and 8-bit parameters over their full range (symbolic)",
-               "events: 5 schemes x symbolic source fields x symbolic data"],
+               "events: 5 schemes x symbolic source fields x symbolic data",
+               "every table frame is first decoded under another device type (8, or 0 for rows that need a "
+               "device type), then under the row's own"],
     "stubs": ["isinstance/int shims", "SymDict registries"],
     "outside": ["appctrl/inputdev/uses_dtr* documentation flags", "parts of IEC 62386 the library does not implement",
                 "send-twice of 202 control commands 224-232/240/254 and of 209 START AUTO CALIBRATION "
@@ -108,6 +110,9 @@ def _flags(ctx, cls, row, tag):
 
 
 def _decode_is(ctx, bits, value, devtype, cls, tag):
+    # the same bits decoded under another device type first: what a frame means under one device
+    # type must not leak into a later decode under another (e.g. through a cache keyed by the bits)
+    call(C.from_frame, F.ForwardFrame(bits, value), devicetype=(8 if devtype == 0 else 0))
     st, d = call(C.from_frame, F.ForwardFrame(bits, value), devicetype=devtype)
     ctx.prove(st == "ok" and type(d) is cls,
               "table frame decodes to %s" % (type(d).__name__ if st == "ok" else repr(d)),
